@@ -65,6 +65,12 @@ CHECKS.update({
                           "connection attempts per object and Mon_C10 (TLC) checks request well-formedness, key freshness, Ready iff correct reply, reporting of protocol/extensions, no message "
                           "events and a closed socket otherwise.",
             "level_note": _NOTE + "Digest/base64/token comparisons are data-level facts established by the harness (hashlib, base64). Known finding K1 (case-insensitive accept comparison) is reported as KNOWN-FINDING."},
+    "C19": {"technique": "explicit TLA+ model of proxy selection and the CONNECT exchange (spec/Proxy.tla) checked by TLC (NothingBeforeTunnel, ProxyOnlyWhenConfigured); every behaviour replayed into the real code; traces judged by the TLA+ monitor Mon_C19 evaluated by TLC",
+            "level_text": "TLC explores every behaviour of the proxy model (targets x mappings x refused connect / CONNECT write error / 13 proxy answer classes x cuts) and checks that no "
+                          "handshake byte precedes a complete 200 answer; each behaviour is replayed against the real _connect/_connect_proxy code with the mapping spelled with missing / None / "
+                          "empty entries; Mon_C19 (TLC) checks proxy selection by scheme, the CONNECT target, write ordering relative to the completed answer, same socket, Connected.proxy, "
+                          "ConnectFail with zero handshake bytes otherwise.",
+            "level_note": _NOTE + "Proxy-Authorization formatting and closing of sockets on proxy failure paths are not part of C19."},
     "C14": _sess("Mon_C14", "pongs = answerable pings (payload, order, multiplicity), each written before its Ping event; none with auto_pong off; failing pong writes do not disturb the event stream (twin run)",
                  "<= 3 (quick) / 4 frames incl. 125-byte all-byte-values ping blobs, several items per read, application send/close reactions, failing writes."),
 })
